@@ -54,10 +54,16 @@ def declare(S: Spec):
 def declare2(S: Spec):
     # --- per-container facts the pool relies on -----------------------------------------------------
     # a container in the active list: live with the visible shape, or already ended in this tick
+    S.pred("SuspendableOK", [("c", Ref("Container"))],
+           "implies(c._can_suspend and not c._completed and c._current_memory <= c.assignment.ram,"
+           " c._current_op_idx >= 1 and c._current_op_idx < len(c.assignment.ops)"
+           " and state(c.assignment.ops[c._current_op_idx]) == OperatorState.ASSIGNED)")
     S.pred("ActiveOK", [("p", Ref("ResourcePool")), ("c", Ref("Container"))],
-           "c is not None and c.pool is p and c.assignment is not None and c.assignment.ram > 0"
+           "c is not None and c.pool is p and c.assignment is not None and c.assignment.ram > 0 and c.assignment.cpu >= 1"
            " and (c._completed or LiveShape(c)) and implies(c._completed, c._current_memory == 0)"
-           " and c._tick_iter is not None and c._tick_iter.owner is c")
+           " and c._tick_iter is not None and c._tick_iter.owner is c and SuspendableOK(c)")
+    S.pred("OwnOp", [("p", Ref("ResourcePool")), ("o", Ref("Operator"))],
+           "any(o in c.assignment.ops for c in p.active_containers)")
     # distinct containers of a pool never share an operator (C02: an operator belongs to at most one live container)
     S.pred("OpsDisjoint", [("s", SeqV(Ref("Container")))],
            "all(all(all(o not in c2.assignment.ops for o in c1.assignment.ops) for c2 in s if c2 is not c1) for c1 in s)")
@@ -87,14 +93,15 @@ def declare2(S: Spec):
                   ("highest-score-first", "all(all(implies(c._completed and not old(c._completed) and old(c._current_memory) <= c.assignment.ram and Candidate(s),"
                                           " old(Score(c)) >= Score(s)) for s in self.active_containers) for c in self.active_containers)"),
                   ("never-chosen", "all(implies(old(c._current_memory) <= 0 or old(c._completed), c._completed == old(c._completed)) for c in self.active_containers)"),
-                  ("list-kept", "seq(self.active_containers) == old(seq(self.active_containers))")],
+                  ("list-kept", "seq(self.active_containers) == old(seq(self.active_containers))"),
+                  ("only-own-operators", "all(state(o) == old(state(o)) for o in every('Operator') if not OwnOp(self, o))")],
          modifies=KILL_MOD,
          locals={"scored": List(Tuple(REAL, Ref("Container")))},
          loops={0: dict(idx="k", header="for c in self.active_containers",
                         inv=["k <= len(self.active_containers)", "GI1()",
                              "all(ActiveOK(self, c) for c in self.active_containers)",
                              "self.consumed_ram_gb == Sum(self.active_containers, 'Container._current_memory')",
-                             "self.consumed_ram_gb <= old(self.consumed_ram_gb)",
+                             "self.consumed_ram_gb <= old(self.consumed_ram_gb)", "all(state(o) == old(state(o)) for o in every('Operator') if not OwnOp(self, o))",
                              "all(self.active_containers[j]._current_memory <= self.active_containers[j].assignment.ram for j in range(0, k))",
                              "all(implies(c._completed and not old(c._completed), old(c._current_memory) > c.assignment.ram and c.error == 'OOM')"
                              " for c in self.active_containers)",
@@ -109,7 +116,7 @@ def declare2(S: Spec):
                              "nodup(scored)",
                              "all(all(implies(t1[1] is t2[1], t1 == t2) for t2 in scored) for t1 in scored)"]),
                 2: dict(idx="k", header="for (_, victim) in scored",
-                        inv=["k <= len(scored)", "GI1()",
+                        inv=["k <= len(scored)", "GI1()", "all(state(o) == old(state(o)) for o in every('Operator') if not OwnOp(self, o))",
                              "all(ActiveOK(self, c) for c in self.active_containers)",
                              "self.consumed_ram_gb == Sum(self.active_containers, 'Container._current_memory')",
                              "all(scored[j][1]._completed and scored[j][1].error == 'OOM' for j in range(0, k))",
@@ -124,10 +131,6 @@ def declare2(S: Spec):
 def declare3(S: Spec):
     A = "self.active_containers"
     SU = "self.suspending_containers"
-    S.pred("SuspendableOK", [("c", Ref("Container"))],
-           "implies(c._can_suspend and not c._completed and c._current_memory <= c.assignment.ram,"
-           " c._current_op_idx >= 1 and c._current_op_idx < len(c.assignment.ops)"
-           " and state(c.assignment.ops[c._current_op_idx]) == OperatorState.ASSIGNED)")
     # conservation of CPU and RAM (C03), written from the statement
     S.pred("Conserved", [("p", Ref("ResourcePool"))],
            "p.avail_cpu_pool + Sum(p.active_containers, 'cpuC') + Sum(p.suspending_containers, 'cpuC') == p.max_cpu_pool and "
@@ -136,14 +139,14 @@ def declare3(S: Spec):
            "nodup(p.active_containers) and nodup(p.suspending_containers)"
            " and all(c not in p.suspending_containers for c in p.active_containers)")
     S.pred("SuspOK", [("p", Ref("ResourcePool")), ("c", Ref("Container"))],
-           "c is not None and c.pool is p and CWF(c) and c.assignment.ram > 0 and not c._completed"
+           "c is not None and c.pool is p and CWF(c) and c.assignment.ram > 0 and c.assignment.cpu >= 1 and not c._completed"
            " and c._suspend_ticks_left is not None and c._suspend_ticks_left >= 1 and c._current_memory == 0"
            " and all(state(op) == OperatorState.SUSPENDING for op in rest(c))")
     S.pred("LiveDisjoint", [("p", Ref("ResourcePool"))],
            "OpsDisjoint(cat(seq(p.active_containers), seq(p.suspending_containers)))")
     S.pred("PoolInv", [("p", Ref("ResourcePool"))],
            "Conserved(p) and ListsOK(p) and LiveDisjoint(p)"
-           " and all(ActiveOK(p, c) and SuspendableOK(c) and not c._completed and c._current_memory <= c.assignment.ram for c in p.active_containers)"
+           " and all(ActiveOK(p, c) and not c._completed and c._current_memory <= c.assignment.ram for c in p.active_containers)"
            " and all(SuspOK(p, c) for c in p.suspending_containers)"
            " and p.consumed_ram_gb == Sum(p.active_containers, 'Container._current_memory')"
            " and p.avail_cpu_pool >= 0 and implies(not p.allow_memory_overcommit, p.avail_ram_pool >= 0)"
@@ -163,7 +166,8 @@ def declare3(S: Spec):
            " and all(all(implies(c1.container_id == c2.container_id, c1 is c2) for c2 in s) for c1 in s)")
 
     CTX = ["GI1()", "ListsOK(self)", "LiveDisjoint(self)", "IdsOK(seq(self.active_containers))", "self.ticks_per_second >= 1"]
-    ACT = "all(ActiveOK(self, c) and SuspendableOK(c) and c._current_memory <= c.assignment.ram for c in self.active_containers)"
+    ACT0 = "all(ActiveOK(self, c) for c in self.active_containers)"
+    ACT = "all(ActiveOK(self, c) and c._current_memory <= c.assignment.ram for c in self.active_containers)"
     ACT_LIVE = "all(not c._completed for c in self.active_containers)"
     SUS = "all(SuspOK(self, c) for c in self.suspending_containers)"
     USAGE = "self.consumed_ram_gb == Sum(self.active_containers, 'Container._current_memory')"
@@ -175,7 +179,11 @@ def declare3(S: Spec):
                    "IdsOK(seq(self.active_containers))", "BatchOK(self, seq(assignments))"],
          ensures=[("conserved", "Conserved(self)"),
                   ("never-oversold", "self.avail_cpu_pool >= 0 and implies(not self.allow_memory_overcommit, self.avail_ram_pool >= 0)"),
-                  ("pool-invariant", "PoolInv(self) and GI1() and IdsOK(seq(self.active_containers))"),
+                  ("lists-ok", "ListsOK(self)"), ("live-disjoint", "LiveDisjoint(self)"),
+                  ("active-ok", "all(ActiveOK(self, c) and not c._completed and c._current_memory <= c.assignment.ram for c in self.active_containers)"),
+                  ("suspending-ok", "all(SuspOK(self, c) for c in self.suspending_containers)"),
+                  ("I1", "GI1()"), ("ids-ok", "IdsOK(seq(self.active_containers))"),
+                  ("pool-invariant", "PoolInv(self)"),
                   ("memory-limits", "all(c._current_memory <= c.assignment.ram for c in self.active_containers)"),
                   ("usage-truthful", USAGE),
                   ("fits-or-idle", "self.consumed_ram_gb <= self.max_ram_pool or all(c._current_memory <= 0 for c in self.active_containers)")],
@@ -192,7 +200,7 @@ def declare3(S: Spec):
          locals={"results": List(Ref("ExecutionResult")), "to_remove": List(Ref("Container"))},
          loops={
              0: dict(idx="k", header="for s in suspensions",
-                     inv=CTX + ["Conserved(self)", ACT, ACT_LIVE, SUS, USAGE,
+                     inv=CTX + ["Conserved(self)", ACT, ACT_LIVE, SUS, USAGE, "BatchOK(self, seq(assignments))",
                                 "all(c in at_entry(seq(self.active_containers)) for c in self.active_containers)"]),
              1: dict(idx="k", header="for a in assignments",
                      inv=CTX + [ACT, ACT_LIVE, SUS, USAGE, "k <= len(assignments)",
@@ -212,19 +220,20 @@ def declare3(S: Spec):
                                 " - Sum(to_remove, 'cpuC') == self.max_cpu_pool",
                                 "self.avail_ram_pool + Sum(self.active_containers, 'ramC') + Sum(self.suspending_containers, 'ramC')"
                                 " - Sum(to_remove, 'ramC') == self.max_ram_pool",
-                                "self.avail_cpu_pool >= at_entry(self.avail_cpu_pool) and self.avail_ram_pool >= at_entry(self.avail_ram_pool)"]),
+                                "self.avail_cpu_pool >= 0 and implies(not self.allow_memory_overcommit, self.avail_ram_pool >= 0)"]),
              3: dict(idx="k", header="for c in to_remove",
-                     inv=CTX + [ACT, ACT_LIVE, USAGE, "k <= len(to_remove)", "nodup(to_remove)",
-                                "all(to_remove[j] in self.suspending_containers for j in range(k, len(to_remove)))",
-                                "all(to_remove[j] not in self.suspending_containers for j in range(0, k))",
-                                "all(c in at_entry(seq(self.suspending_containers)) for c in self.suspending_containers)",
-                                "all(implies(c not in to_remove, SuspOK(self, c)) for c in self.suspending_containers)",
-                                "self.avail_cpu_pool + Sum(self.active_containers, 'cpuC') + Sum(self.suspending_containers, 'cpuC')"
-                                " - Sum(drop(to_remove, k), 'cpuC') == self.max_cpu_pool",
-                                "self.avail_ram_pool + Sum(self.active_containers, 'ramC') + Sum(self.suspending_containers, 'ramC')"
-                                " - Sum(drop(to_remove, k), 'ramC') == self.max_ram_pool"]),
+                     inv=["ListsOK(self)", "k <= len(to_remove)", "nodup(to_remove)",
+                          "seq(self.active_containers) == at_entry(seq(self.active_containers))",
+                          "all(to_remove[j] in self.suspending_containers for j in range(k, len(to_remove)))",
+                          "all(to_remove[j] not in self.suspending_containers for j in range(0, k))",
+                          "all(c in at_entry(seq(self.suspending_containers)) for c in self.suspending_containers)",
+                          "all(implies(c in to_remove, idx(seq(to_remove), c) >= k) for c in self.suspending_containers)",
+                          "self.avail_cpu_pool + Sum(self.active_containers, 'cpuC') + Sum(self.suspending_containers, 'cpuC')"
+                          " - Sum(drop(to_remove, k), 'cpuC') == self.max_cpu_pool",
+                          "self.avail_ram_pool + Sum(self.active_containers, 'ramC') + Sum(self.suspending_containers, 'ramC')"
+                          " - Sum(drop(to_remove, k), 'ramC') == self.max_ram_pool"]),
              4: dict(idx="k", header="for c in self.active_containers",
-                     inv=CTX + [ACT, SUS, USAGE, "Conserved(self)", "k <= len(self.active_containers)",
+                     inv=CTX + [ACT0, SUS, USAGE, "Conserved(self)", "k <= len(self.active_containers)",
                                 "all(not self.active_containers[j]._completed for j in range(k, len(self.active_containers)))"]),
              5: dict(idx="k", header="for c in self.active_containers",
                      inv=CTX + [ACT, SUS, USAGE, "k <= len(self.active_containers)",
@@ -238,19 +247,19 @@ def declare3(S: Spec):
                                 " - Sum(to_remove, 'cpuC') == self.max_cpu_pool",
                                 "self.avail_ram_pool + Sum(self.active_containers, 'ramC') + Sum(self.suspending_containers, 'ramC')"
                                 " - Sum(to_remove, 'ramC') == self.max_ram_pool",
-                                "self.avail_cpu_pool >= at_entry(self.avail_cpu_pool) and self.avail_ram_pool >= at_entry(self.avail_ram_pool)",
+                                "self.avail_cpu_pool >= 0 and implies(not self.allow_memory_overcommit, self.avail_ram_pool >= 0)",
+                                "all(c._current_memory == 0 for c in to_remove)",
                                 "len(results) == len(to_remove)"]),
              6: dict(idx="k", header="for c in to_remove",
-                     inv=CTX + [ACT, SUS, "k <= len(to_remove)", "nodup(to_remove)",
-                                "all(c._current_memory <= c.assignment.ram for c in self.active_containers)",
-                                "all(to_remove[j] in self.active_containers for j in range(k, len(to_remove)))",
-                                "all(to_remove[j] not in self.active_containers for j in range(0, k))",
-                                "all(c in at_entry(seq(self.active_containers)) for c in self.active_containers)",
-                                "all(c._completed and c._current_memory == 0 for c in to_remove)",
-                                "all(implies(c._completed, c in to_remove) for c in self.active_containers)",
-                                "self.consumed_ram_gb == Sum(self.active_containers, 'Container._current_memory')",
-                                "self.avail_cpu_pool + Sum(self.active_containers, 'cpuC') + Sum(self.suspending_containers, 'cpuC')"
-                                " - Sum(drop(to_remove, k), 'cpuC') == self.max_cpu_pool",
-                                "self.avail_ram_pool + Sum(self.active_containers, 'ramC') + Sum(self.suspending_containers, 'ramC')"
-                                " - Sum(drop(to_remove, k), 'ramC') == self.max_ram_pool"]),
+                     inv=["ListsOK(self)", "k <= len(to_remove)", "nodup(to_remove)",
+                          "seq(self.suspending_containers) == at_entry(seq(self.suspending_containers))",
+                          "all(to_remove[j] in self.active_containers for j in range(k, len(to_remove)))",
+                          "all(to_remove[j] not in self.active_containers for j in range(0, k))",
+                          "all(c in at_entry(seq(self.active_containers)) for c in self.active_containers)",
+                          "all(implies(c not in to_remove, c in self.active_containers) for c in at_entry(seq(self.active_containers)))",
+                          "Sum(self.active_containers, 'Container._current_memory') == at_entry(Sum(self.active_containers, 'Container._current_memory'))",
+                          "self.avail_cpu_pool + Sum(self.active_containers, 'cpuC') + Sum(self.suspending_containers, 'cpuC')"
+                          " - Sum(drop(to_remove, k), 'cpuC') == self.max_cpu_pool",
+                          "self.avail_ram_pool + Sum(self.active_containers, 'ramC') + Sum(self.suspending_containers, 'ramC')"
+                          " - Sum(drop(to_remove, k), 'ramC') == self.max_ram_pool"]),
          })
